@@ -313,6 +313,27 @@ class MaskAnalysis(object):
         b = strip(base, casts=True)
         if b.kind == 'UnaryOperator' and b.op in ('++', '--'):
             st.bump = True
+            r_ = self._bump_in_counted_loop(st, b, fs)
+            if r_ is not None:
+                base, lo_i, hi_i = r_
+                o = self.pointer_origin(base, fs)
+                if o is not None:
+                    X, row, off = o
+                    st.owner = X
+                    W = Lin.atom('%s.width' % X)
+                    hi, lo = off + hi_i, off + lo_i
+                    info = dict(owner=X, max_word='%r' % hi, min_word='%r' % lo, note='pointer bumped once per iteration of a counted loop')
+                    fwd = hi - (Lin.atom('%s.fullwords' % X) - Lin(1))
+                    if fwd.is_const() and fwd.c <= 0:
+                        return 'INTERIOR', dict(info, note='only full words (no excess bits) are addressed')
+                    hi = self._upper_in_terms_of(hi, X, st.func)
+                    dhi, dlo = hi - (W - Lin(1)), lo - (W - Lin(1))
+                    if dhi.is_const():
+                        if dhi.c < 0:
+                            return 'INTERIOR', info
+                        if dhi.c == 0:
+                            return ('LAST' if (dlo.is_const() and dlo.c == 0) else 'MAYBE'), info
+                        return 'BEYOND', info
             return 'UNKNOWN', dict(why='pointer bump')
         o = self.pointer_origin(base, fs)
         if o is None:
@@ -354,6 +375,45 @@ class MaskAnalysis(object):
                 return 'MAYBE', info
             return 'BEYOND', info
         return 'UNKNOWN', info
+
+    def _bump_in_counted_loop(self, st, bump, fs):
+        """`T *p = BASE; for (j = lo; j < hi; ++j) { ... *p++ ...; }` with p post-incremented exactly once per iteration, at the
+        top level of the loop body, and defined once before the loop: the word addressed in iteration j is BASE[j - lo].
+        Returns (BASE node, Lin 0, Lin hi - 1 - lo) or None."""
+        if bump.op != '++' or not getattr(bump, 'postfix', True):
+            return None
+        pv = strip(bump.kids[0], casts=True)
+        if pv.kind != 'DeclRefExpr' or pv.refkind != 'VarDecl':
+            return None
+        defs = fs.defs.get(pv.refid, [])
+        if len(defs) != 1:
+            return None
+        loop = fs.enclosing(st.node, ('ForStmt',))
+        if loop is None or any(x is defs[0] for x in loop.walk()):
+            return None
+        iv = fs._induction(loop)
+        if iv is None or iv[3] != 1:
+            return None
+        # every modification of p in the whole function: exactly this bump; it sits in a top-level statement of the loop body
+        mods = []
+        for n in fs.f.body.walk():
+            if (n.kind == 'UnaryOperator' and n.op in ('++', '--', '&')) or n.kind == 'CompoundAssignOperator' or (n.kind == 'BinaryOperator' and n.op == '='):
+                t = strip(n.kids[0], casts=True)
+                if t.kind == 'DeclRefExpr' and t.refid == pv.refid:
+                    mods.append(n)
+        mods = [m for m in mods if not (m.kind == 'BinaryOperator' and m.kids[1] is defs[0])]
+        if len(mods) != 1 or mods[0] is not bump:
+            return None
+        body = loop.kids[4]
+        tops = body.kids if body.kind == 'CompoundStmt' else [body]
+        holder = [t for t in tops if any(x is bump for x in t.walk())]
+        if len(holder) != 1 or strip(holder[0]).kind in ('IfStmt', 'ForStmt', 'WhileStmt', 'SwitchStmt', 'DoStmt'):
+            return None
+        # no other loop between: the store's innermost loop is this one
+        inner = fs.enclosing(bump, ('ForStmt', 'WhileStmt', 'DoStmt'))
+        if inner is not loop:
+            return None
+        return defs[0], Lin(0), iv[2] - Lin(1) - iv[1]
 
     def _upper_in_terms_of(self, hi, X, f):
         """Rewrite an upper bound that mentions min(..X.width..) or Y.width with Y.width <= X.width."""
